@@ -111,6 +111,22 @@ def gen(rng, tier):
         for n in [nb // 2 - 1, nb // 2, nb // 2 + 1, nb - 1024, max(4, nb - 1025), nb // 3, nb - 2, nb - 1, nb, nb + 1]:
             if n >= 1:
                 emit(reqs, rng, x, n)
+    # -- values that are exactly representable as floats (few significant bits) and whose root sits just
+    #    below / at / above an integer: the regime where a float-based guess or shortcut looks "exact".
+    #    Sparse roots r = 2^a + 2^b, 2^a ± 1, m·2^s; x = r^n, r^n ± 1, and x = m·2^s itself.
+    for n in (2, 3, 4, 5, 7):
+        for tb in (66, 70, 80, 90, 100, 104, 105, 106, 107, 120, 128, 160, 200, 400, 1000):
+            rb = max(2, tb // n)
+            cands = [(1 << rb) + 1, (1 << rb) - 1, (1 << rb) + (1 << rng.randrange(rb)), 3 << (rb - 1),
+                     (rng.randrange(1, 1 << min(rb, 20)) | 1) << max(0, rb - 20)]
+            for r in cands[: (5 if thorough else 3)]:
+                p = r ** n
+                for x in (p - 1, p, p + 1):
+                    emit(reqs, rng, x, n, signed_too=False)
+            # x = m * 2^s with m < 2^53 (lossless f64), random and all-ones mantissas
+            for m in (rng.randrange(1, 1 << 53), (1 << 53) - 1, 1, 3):
+                s_ = max(0, tb - m.bit_length())
+                emit(reqs, rng, m << s_, n, signed_too=False)
     # -- squares / cubes of all-ones and of B^k (carry-heavy)
     for k in ([1, 2, 3, 8, 17] + ([40] if thorough else [])):
         for r in (val([MAX] * k), 1 << (64 * k), (1 << (64 * k)) + 1):
